@@ -43,7 +43,7 @@ def all_events():
             ev.append(('scal', op, s, 'r'))   # s op a
         ev.append(('arr', op, 'l'))
         ev.append(('arr', op, 'r'))
-    ev += [('pow', 'ab'), ('pow', 'int'), ('pow', 'float'), ('pow', 'rint'), ('pow', 'complex')]
+    ev += [('pow', 'ab'), ('pow', 'int'), ('pow', 'float'), ('pow', 'rint'), ('pow', 'complex'), ('pow', 'rcomplex')]
     for f in UNARY:
         ev.append(('un', f))
     ev += [('reweight',), ('correlate',), ('merge',), ('gm',), ('fit',), ('root',), ('json',), ('dobs',), ('pickle',),
@@ -247,12 +247,16 @@ def apply_event(pe, regs, ev, acc, path):
                         r = 2 ** a
                     elif how == 'complex':
                         r = a ** (1 + 2j)
+                    elif how == 'rcomplex':
+                        if abs(va) > 4:
+                            return disabled()
+                        r = (1 + 2j) ** a
                 except (TypeError, ValueError):
                     acc.ok(('t', tuple(map(tuple, path)), ev), False, 'refused')
                     return None
                 bad = compare.wf_any(r, pe)
                 if bad:
-                    acc.fail('closure:**:%s' % ('complex' if how == 'complex' else 'real'), sub, 'Obs ** %s is not closed: %s' % (how, bad))
+                    acc.fail('closure:**:%s' % (how if 'complex' in how else 'real'), sub, 'Obs ** %s is not closed: %s' % (how, bad))
                     return None
                 acc.ok(('t', tuple(map(tuple, path)), ev), True, 'pow')
                 return store(r)
